@@ -3,12 +3,16 @@
 import glob, json, os
 print('| seeded change | the change | what it needs to manifest | caught by | caught at |')
 print('|---|---|---|---|---|')
-first = later = 0
+first = later = missed = 0
 for d in sorted(glob.glob('/verif/seeded/*/')):
     name = os.path.basename(d.rstrip('/'))
     m = json.load(open(d + 'meta.json'))
     if 'out_of_scope' in m:
         print('| `seeded/%s` | %s | %s | - | not adopted: %s |' % (name, m.get('summary', ''), m.get('needs', ''), m['out_of_scope'][:260]))
+        continue
+    if 'missed' in m:
+        missed += 1
+        print('| `seeded/%s` | %s | %s | - | MISSED: %s |' % (name, m.get('summary', ''), m.get('needs', ''), m['missed'][:300]))
         continue
     if 'history' in m:
         later += 1
@@ -18,4 +22,4 @@ for d in sorted(glob.glob('/verif/seeded/*/')):
         at = 'first run'
     print('| `seeded/%s` | %s | %s | %s quick | %s |' % (name, m.get('summary', ''), m.get('needs', ''), m['property'], at))
 print()
-print('%d seeded changes; %d caught by the quick tier as it stood, %d after the extension named.' % (first + later, first, later))
+print('%d seeded changes; %d caught by the quick tier as it stood, %d after the extension named, %d missed (round 14, not yet extended).' % (first + later + missed, first, later, missed))
